@@ -118,7 +118,8 @@ def run(ctx):
             for p in ('optimize_copy@foreign', 'constant_propagation@foreign', 'common_subexp_elimination@foreign'):
                 tasks.append((passcheck.design_with_pre(d, []), p, k, opts))
         # Outputs driven directly by logic nets (no 'w' net in front): folding / merging must keep them
-        if d['name'] in ('const_fold', 'consts', 'shared_subexp', 'mixed_alu', 'binop', 'unop', 'repeat_args'):
+        if d['name'] in ('const_fold', 'consts', 'shared_subexp', 'mixed_alu', 'binop', 'unop', 'repeat_args',
+                         'slices', 'trunc_ext', 'concat3', 'fold_in_place', 'mux2'):
             dd = passcheck.design_with_pre(d, ['direct_connect_outputs'])
             for p in ('optimize', 'constant_propagation', 'common_subexp_elimination'):
                 tasks.append((dd, p, k, opts))
